@@ -116,7 +116,8 @@ func (e *EmptyDataProvider) Get(key string) any {
 }
 
 func (e *EmptyDataProvider) GetByField(field reflect.StructField, fallback string) (any, string) {
-	return nil, fallback
+	// no value, but the key (used for the issue path) still follows the struct tags
+	return nil, GetKeyFromField(field, fallback, nil)
 }
 
 func (e *EmptyDataProvider) GetNestedProvider(key string) DataProvider {
